@@ -1,7 +1,7 @@
 """Ring units for C19 kernels that are decided per INSTANCE (a fixed length, all element values symbolic): the real function is
 executed on a vector of k symbols, every zero / non-zero pattern is a separate path, and the result is compared exactly.
 For a fixed length this covers every input; the bound is on the LENGTH only (stated in the obligation text)."""
-from vlib.ring import (Unit, Sym, VArr, VIter, VTuple, VOpaque, VStruct, VOk, UNIT, as_poly as P, sym, OutsideFragment, canon, inv_sym)
+from vlib.ring import (Unit, Sym, VArr, VIter, VTuple, VOpaque, VStruct, VOk, UNIT, as_poly as P, sym, OutsideFragment, canon, inv_sym, InfeasiblePath)
 from vlib.poly import Poly, C, S
 
 import os
@@ -701,3 +701,122 @@ _pm.extra_contracts = {
     ".interpolate": lambda it, recv, a: VOpaque("interpolate", [recv]),
 }
 _pm.helper_files = [PF]
+
+
+# ---- closed-form public-input / first-Lagrange evaluations of the verifier: proof.rs compute_lagrange_and_barycentric_evaluations, instances
+PR = "src/proof_system/proof.rs"
+
+
+def mk_domain_sym():
+    return VStruct("EvaluationDomain", {"size": Sym("n"), "size_as_field_element": Sym("n_field"), "size_inv": Sym("n_inv"),
+                                        "group_gen": Sym("w"), "group_gen_inv": Sym("wi"), "generator_inv": Sym("gi"), "log_size_of_group": Sym("log_n")})
+
+
+def c_lagrange_bary(k):
+    def c(it, recv, a):
+        """with D_0 = n (z - 1) and D_j = root_j z - 1 for every NON-ZERO public input j (zero inputs are skipped, the pairing of the
+        remaining inputs with their roots is positional):  Err(ProofVerificationError) if some D is zero (z inside the domain);
+        otherwise  l1 = z_h / D_0  and  pi = (z_h / n) * sum_j pi_j / D_j   (stated in product form over T = prod D)"""
+        roots, evals, z, zh, dom = a
+        z, zh = P(z), P(zh)
+        nz = []
+        for i in range(k):
+            d = it.decided(f"eq(e{i}, int:0)")
+            if d is None:
+                raise OutsideFragment(f"lagrange/barycentric: the path does not decide e{i} == 0 (keys: {it.decided_keys})")
+            if not d:
+                nz.append(i)
+        D = [P(Sym("n_field")) * (z - 1)] + [P(Sym(f"r{i}")) * z - 1 for i in nz]
+        for d_ in D:
+            dz = it.decided(canon(VOpaque("eq", [d_, C(0)])))
+            if dz is None:
+                dz = it.decided(canon(VOpaque("eq", [d_, 0])))
+            if dz is None:
+                raise OutsideFragment(f"lagrange/barycentric: the path does not decide whether a denominator is zero (keys: {it.decided_keys})")
+            if dz:
+                from vlib.ring import VErr
+                return VErr("Error::ProofVerificationError")
+        T = P(1)
+        for d_ in D:
+            T = T * d_
+        inv = P(inv_sym(T))
+
+        def inv_of(j):
+            rest = P(1)
+            for i_, d_ in enumerate(D):
+                if i_ != j:
+                    rest = rest * d_
+            return inv * rest
+        l1 = zh * inv_of(0)
+        pi = P(0)
+        for pos, i in enumerate(nz):
+            pi = pi + P(Sym(f"e{i}")) * inv_of(pos + 1)
+        pi = pi * zh * P(Sym("n_inv"))
+        return VOk(VTuple([l1, pi]))
+    return c
+
+
+for k_ in (0, 1, 2, 3):
+    u = unit(f"proof.compute_lagrange_and_barycentric_evaluations[inputs={k_}]", PR, "alloc::compute_lagrange_and_barycentric_evaluations",
+             [("public_input_roots", mk_arr("r", k_)), ("evaluations", mk_arr("e", k_)), ("point", sym("z")), ("z_h_eval", sym("zh")), ("domain", mk_domain_sym)],
+             c_lagrange_bary(k_), lambda res, args, ctx: {"result": res, "exits": list(ctx.exits)}, path_dependent=True)
+    u.extra_contracts = {"batch_inversion": c_bi_nonzero}
+    u.helper_files = ["src/util.rs"]
+
+
+# ---- prover side: proof.rs compute_barycentric_eval (dense evaluation vector over the whole domain), instances n = 1, 2, 4
+def c_bary_dense(n):
+    def c(it, recv, a):
+        """PI(z) = (z^n - 1)/n * sum_{i : e_i != 0} e_i / (w^-i z - 1); a denominator that is zero (z inside the domain) contributes nothing
+        (batch_inversion leaves zeros - the prover's value is then not PI(z); z is a random challenge); product form over the non-zero ones"""
+        ev_, z, dom = a
+        z = P(z)
+        wi = P(Sym("wi"))
+        nz = []
+        for i in range(n):
+            d = it.decided(f"eq(e{i}, int:0)")
+            if d is None:
+                raise OutsideFragment(f"barycentric (dense): the path does not decide e{i} == 0 (keys: {it.decided_keys})")
+            if not d:
+                nz.append(i)
+        D = [(wi ** i) * z - 1 for i in nz]
+        live = []
+        for d_ in D:
+            dz = it.decided(canon(VOpaque("eq", [d_, C(0)])))
+            if dz is None:
+                dz = it.decided(canon(VOpaque("eq", [d_, 0])))
+            if dz is None:
+                dz = False if not P(d_).vars() else None
+            if dz is None:
+                raise OutsideFragment(f"barycentric (dense): the path does not decide whether a denominator is zero (keys: {it.decided_keys})")
+            live.append(not dz)
+        if live.count(False) > 1:
+            # MATHEMATICAL FACT: the w^-i are pairwise distinct, so w^-i z == 1 holds for at most one i
+            raise InfeasiblePath("two denominators w^-i z - 1 zero at once")
+        T = P(1)
+        for d_, l_ in zip(D, live):
+            if l_:
+                T = T * d_
+        inv = P(inv_sym(T))
+        tot = P(0)
+        for pos, i in enumerate(nz):
+            if not live[pos]:
+                continue
+            rest = P(1)
+            for p2, d_ in enumerate(D):
+                if p2 != pos and live[p2]:
+                    rest = rest * d_
+            tot = tot + P(Sym(f"e{i}")) * inv * rest
+        return tot * (z ** n - 1) * P(Sym("n_inv"))
+    return c
+
+
+for n_ in (1, 2, 4):
+    u = unit(f"proof.compute_barycentric_eval[n={n_}]", PR, "alloc::compute_barycentric_eval",
+             [("evaluations", mk_arr("e", n_)), ("point", sym("z")), ("domain", mk_domain(n_))], c_bary_dense(n_),
+             lambda res, args, ctx: {"result": res, "exits": list(ctx.exits)}, path_dependent=True)
+    u.extra_contracts = dict(FFTC, **{".into_par_iter": lambda it, recv, a: (VIter(list(recv.items)) if isinstance(recv, (VArr, VIter)) else
+                                                                           (VIter(list(range(recv.lo, recv.hi))) if hasattr(recv, "lo") and isinstance(recv.lo, int) and isinstance(recv.hi, int) else NotImplemented)),
+                                      ".size": lambda it, recv, a: recv.fields["size"] if isinstance(recv, VStruct) else NotImplemented})
+    u.helper_files = ["src/util.rs"]
+    u.max_paths = 4096
